@@ -247,7 +247,7 @@ def key_for(env, path, replace, nt, fam, unique, m, kind, sib):
         ref = sib[0][0] if not unique else sib[0][1 + m]
         if kind not in ref[4]:
             return kind + ":nt-cut"
-    if kind.startswith(("reserved-char", "control-char", "directory-changed")):
+    if kind.startswith(("reserved-char", "control-char", "directory-changed", "unique:")):
         return kind                             # a character that survives does so whatever the length
     return kind + ":" + structural_cause(path)
 
